@@ -185,6 +185,12 @@ var pathSoup = []string{"a", "b", "z", "A", "Z", "0", "1", "9", "-", ".", "_", "
 // both cases, digits, non-ASCII letters and marks, invalid UTF-8, NUL and rule-relevant tokens.
 func PathSoup(r *rand.Rand) string {
 	var sb strings.Builder
+	if r.IntN(40) == 0 {
+		// a reserved stem that first occurs inside a longer word and later stands as an element of its own
+		st := Pick(r, []string{"con", "nul", "aux", "prn", "com1", "lpt1", "CON", "Nul"})
+		word := Pick(r, []string{st + "s", st + "0", "fal" + st, "x" + st, st + st, st + "-" + st, "_" + st})
+		return Pick(r, []string{"", "example.com/", "a/"}) + word + "/" + st + Pick(r, []string{"", ".go", ".tar.gz", "/driver.go", " .txt"})
+	}
 	switch r.IntN(5) {
 	case 0:
 		sb.WriteString("example.com/")
